@@ -20,8 +20,11 @@
 (* internal.  TracePeer.tla replays recorded event sequences through these *)
 (* actions; MCPeer.tla explores all interleavings.                         *)
 (*                                                                         *)
-(* Fix* constants switch individual repairs on; with all of them FALSE the *)
-(* specification describes the code as it is.                              *)
+(* Fix* constants switch individual repairs on.  The current tree is       *)
+(* FixStall = TRUE (stallHandler repaired in btcd by "fix: peer: stall     *)
+(* handler waits for both the input and the output handler"), FixEarly =   *)
+(* FixLatePut = FALSE (recorded, unrepaired defects).  With FixStall =     *)
+(* FALSE the specification describes the stall handler before the repair.  *)
 (***************************************************************************)
 EXTENDS Naturals, Sequences, FiniteSets
 
